@@ -366,6 +366,10 @@ Lemma merged_as_merged_on s a : merged s a = match alookup a (hb s) with Some av
 Proof. reflexivity. Qed.
 Lemma alookup_dec_tbl {A} (dec : list N -> A) t k : alookup k (dec_tbl dec t) = option_map dec (alookup k t).
 Proof. induction t as [|[k' b] t IH]; cbn [dec_tbl map alookup fst snd]; [reflexivity|]. destruct (k =? k'); [reflexivity|exact IH]. Qed.
+Lemma fc_on_shape ws q p av bv bbr : fc_on ws q (p_shape p) av bv bbr = fc_on ws q (p_view p) av bv bbr.
+Proof. reflexivity. Qed.
+Lemma merged_on_shape p av : merged_on (p_shape p) av = merged_on (p_view p) av.
+Proof. reflexivity. Qed.
 Lemma p_view_initbi p : p_view (p_initbi p) = p_view p.
 Proof. unfold p_view, p_binfo, p_initbi. cbn [p_bi p_n p_cur p_evs]. reflexivity. Qed.
 
@@ -535,9 +539,14 @@ Proof.
       - exists None, (ce_la_t ce). split; [reflexivity|]. split; [exact Cla|]. split; [reflexivity|]. split; [reflexivity|]. intros H. exfalso. apply H. reflexivity. }
     destruct Hlb as (ob & lat & Hlat & Clat & Hcl & Hfl & Hob). rewrite Hlat. cbn [fst snd ce_p ce_fc ce_dirty].
     assert (Hr : match oa, ob, alookup b (pd_br (p_cur (p_initbi (ce_p ce)))) with
-                 | Some ab, Some bb, Some brb => fc_on ws q (p_view (p_initbi (ce_p ce))) (dec_hb ab) (dec_la bb) (dec_br brb)
+                 | Some ab, Some bb, Some brb => fc_on ws q (p_shape (p_initbi (ce_p ce))) (dec_hb ab) (dec_la bb) (dec_br brb)
                  | _, _, _ => false end = fc ws q (vs_cur vs) a b).
-    { rewrite p_view_initbi, fc_as_fc_on, <- (pr_cur n _ _ R). unfold p_view at 2 3 4. cbn [hb la ebr].
+    { assert (Hsh : forall av bv bbr, fc_on ws q (p_shape (p_initbi (ce_p ce))) av bv bbr = fc_on ws q (p_view (p_initbi (ce_p ce))) av bv bbr) by reflexivity.
+      match goal with |- ?L = _ => assert (HL : L = match oa, ob, alookup b (pd_br (p_cur (p_initbi (ce_p ce)))) with
+                 | Some ab, Some bb, Some brb => fc_on ws q (p_view (p_initbi (ce_p ce))) (dec_hb ab) (dec_la bb) (dec_br brb)
+                 | _, _, _ => false end) by (destruct oa, ob, (alookup b (pd_br (p_cur (p_initbi (ce_p ce))))); try reflexivity; apply Hsh) end.
+      rewrite HL. clear HL Hsh.
+      rewrite p_view_initbi, fc_as_fc_on, <- (pr_cur n _ _ R). unfold p_view at 2 3 4. cbn [hb la ebr].
       rewrite !alookup_dec_tbl. cbn [p_initbi p_cur]. cbn [ce_hb_t t_cur] in Ha. rewrite <- Ha.
       destruct oa as [ab|]; cbn [option_map]; [|reflexivity].
       rewrite (Hob ltac:(discriminate)). cbn [ce_la_t t_cur].
